@@ -765,6 +765,10 @@ class DecimalRange(Range):
                 raise errors.RangeValueError("value must be decimal but is %s" % _compat.text_repr(value), location)
         else:
             value_as_decimal = value
+        if not value_as_decimal.is_finite():
+            raise errors.RangeValueError(
+                "value must be a finite decimal number but is %s" % _compat.text_repr(value), location
+            )
 
         if self._items is not None:
             is_valid = False
